@@ -14,6 +14,79 @@ TRUSTED = ['CPython ast', 'the g*/p* naming scheme', 'C01 (acq, ipow exact)',
            'numpy/torch: boolean-mask indexing copies, basic slicing views']
 
 
+def override_covers_rows(run, repo, pkg, rule='R13.override'):
+    """A state is a list of 2N rows; rotate_by / transform_by act on every row (standby rows included: they are part of the
+    symplectic basis).  If StabilizerState (or CliffordMap) overrides one of them, the override is executed on N = 3, r = 1 and the
+    rows it hands to the list operation are collected: they must be all 2N rows."""
+    from .. import mini
+    from ..exprnf import Undecidable
+    n = 0
+    for cname in ('StabilizerState', 'CliffordMap'):
+        c = repo.find_cls(pkg, cname)
+        if c is None:
+            continue
+        for mname in ('rotate_by', 'transform_by'):
+            m = c.methods.get(mname)
+            if m is None:
+                continue
+            n += 1
+            rows = set()
+            ALL = set(range(6))
+
+            class _Rows:
+                def __init__(self, r):
+                    self.r = set(r)
+
+            def attr(nd, env, rec):
+                t = norm(nd)
+                if t in ('self.N', 'self.r', 'self.L'):
+                    return {'self.N': 3, 'self.r': 1, 'self.L': 6}[t]
+                raise Undecidable('attribute ' + t)
+
+            def sub(nd, env, rec):
+                if norm(nd.value) == 'self':
+                    k = rec(nd.slice)
+                    if isinstance(k, slice):
+                        return _Rows(range(6)[k])
+                    if isinstance(k, int):
+                        return _Rows([range(6)[k]])
+                b = rec(nd.value)
+                if isinstance(b, tuple):
+                    return b[rec(nd.slice)]
+                raise Undecidable('subscript ' + norm(nd))
+
+            def call(nd, env, rec):
+                fn = nd.func
+                if isinstance(fn, ast.Name) and fn.id == 'slice':
+                    return slice(*[rec(a) for a in nd.args])
+                if isinstance(fn, ast.Attribute) and fn.attr in ('rotate_by', 'transform_by'):
+                    if isinstance(fn.value, ast.Call) and norm(fn.value.func) == 'super':
+                        rows.update(ALL)
+                        return None
+                    if isinstance(fn.value, ast.Name) and fn.value.id in ('PauliList',) and nd.args and norm(nd.args[0]) == 'self':
+                        rows.update(ALL)
+                        return None
+                    if norm(fn.value) == 'self':
+                        raise Undecidable('recursive call')
+                    b = rec(fn.value)
+                    if isinstance(b, _Rows):
+                        rows.update(b.r)
+                        return b
+                raise Undecidable('call ' + norm(fn))
+
+            def on_expr(e, env, value):
+                value(e)
+            try:
+                mini.execute(m.node, dict({p_: None for p_ in m.posparams[1:]}, self='SELF'), sub=sub, call=call, attr=attr, on_expr=on_expr)
+            except (Undecidable, TypeError, ValueError) as e:
+                run.undecided(rule, m, m.qual, 'override of %s not executable on row sets: %s' % (mname, e))
+                continue
+            run.check(rows == ALL, rule, m, m.qual, '%s.%s overrides the list operation and applies it to rows %s of a tableau with N = 3, r = 1: rows %s are not '
+                      'transformed (standby rows belong to the symplectic basis; left behind they no longer pair with their partners)'
+                      % (cname, mname, sorted(rows), sorted(ALL - rows)))
+    return n
+
+
 def check(run):
     repo = run.repo
     rotate.check_loop_rotation(run, repo.func(K.PY_U, 'clifford_rotate'), signed=True)
@@ -85,6 +158,8 @@ def check(run):
                   'the rotation map must start from the identity table')
         run.check(got[1] == 'zeros', 'R12.init', f, 'ps = zeros(2N)',
                   'the rotation map must start from zero phases')
+    for pkg_ in ('pyclifford', 'torchclifford'):
+        override_covers_rows(run, repo, pkg_)
     # the rotation gate acts on the support of its generator (condense): a qubit is in the support iff (x, z) != (0, 0)
     from .C18 import support_mask
     for urel in (K.PY_U, K.TC_U):
